@@ -931,7 +931,11 @@ def families():
     for sk in ('r_a_aaaa', 'r_mx_soa'):
         mut("renobj2_%s" % sk, "p_mutate::rename_after_uncompress::<_, skel_gen::%s>" % camel(sk), sk, ["C08"], 'rotate',
             "program: in-place decompression through a cursor (maybe_compressed becomes false), then ParsedPacket::rename_with_raw_names: view == fresh parse and the pointer flag is consistent (label characters concrete)")
+    for sk in ('q_opt2', 'r_optmid', 'r_optfirst', 'r_ns_add_optlast', 'q_opt0'):
+        mut("delopt_%s" % sk, "p_mutate::delete_opt::<_, skel_gen::%s>" % camel(sk), sk, ["C08", "C09", "C11"], 'rotate',
+            "delete the OPT pseudo-record reached with the OPT-including walk of the additional section, delete again through the tombstone: only OPT and its count go; the EDNS view (offset, option count, version, flags, extended rcode, payload size) == fresh parse, no EDNS option walk is offered")
     QUICK_MUT = {
+        'delopt_q_opt2', 'delopt_r_optmid',
         'ttl_r_all_sections_ar0', 'ip_r_a_aaaa_an0', 'ip_r_a_aaaa_an1',
         'name_short_r_all_sections_ar0', 'name_long_r_a_aaaa_an0', 'name_long_r_optmid_ar0', 'name_short_r_a_aaaa_q0', 'name_equal_r_three_a_an1', 'name_equal_r_a_aaaa_q0',
         'reinsq_r_ns_add_optlast', 'renobj2_r_a_aaaa',
@@ -941,7 +945,7 @@ def families():
         'cacheq_q_plain', 'itunc_r_a_aaaa_an1', 'hdrops_r_all_sections', 'recompute_r_all_sections', 'renobj_r_a_aaaa',
         'delwalk_r_three_a_an_m5', 'delwalk_r_optmid_ar_m1', 'delwalk_r_a_aaaa_an_m3',
     }
-    MUT_PREFIX = ('ttl_', 'ip_', 'name_', 'namebad_', 'del_', 'ins_', 'cacheq_', 'itunc_', 'hdrops_', 'recompute_', 'delwalk_', 'renobj_', 'reinsq_', 'renobj2_')
+    MUT_PREFIX = ('ttl_', 'ip_', 'name_', 'namebad_', 'del_', 'ins_', 'cacheq_', 'itunc_', 'hdrops_', 'recompute_', 'delwalk_', 'renobj_', 'reinsq_', 'renobj2_', 'delopt_')
     for f in fam:
         if f['name'].startswith(MUT_PREFIX):
             f['tier'] = 'quick' if f['name'] in QUICK_MUT else 'rotate'
